@@ -906,3 +906,16 @@ for _u in _c12t["UNITS"]:
         _u.template = "../C12/" + _u.template
         UNITS.append(_u)
 META["trusted_base"] = list(META.get("trusted_base", [])) + ["unit c12.recycle.trampoline is the C12 unit of the same name (specs/C12/tramp.c) with its trusted base"]
+
+
+# ---- C10 units reused: the pool's submission gate -- "never dropped" starts at scheduled_thread_pool::create_thread / create_work, which may
+# ---- turn work away only while the pool has no worker threads (seeded change C19-7)
+_c10p = {"UNITS": [], "VX_NO_REUSE": True}
+if not globals().get("VX_NO_REUSE"):
+    exec(compile(open("/verif/specs/C10/spec.py").read(), "/verif/specs/C10/spec.py", "exec"), _c10p)
+for _u in _c10p["UNITS"]:
+    if _u.name in ("pool.create_thread", "pool.create_work"):
+        _u.name = "c10." + _u.name
+        _u.template = "../C10/" + _u.template
+        UNITS.append(_u)
+META["trusted_base"] = list(META.get("trusted_base", [])) + ["units c10.pool.create_* are the C10 units of the same name (specs/C10/chain.c) with their trusted base"]
